@@ -141,6 +141,7 @@ type c05obs struct {
 	firstArrival, lastArrival time.Time
 	closed  bool
 	chanReturned bool
+	continued    bool // after quit the application went on with PollEvent until the queue was empty
 	nilEv   bool
 }
 
@@ -355,11 +356,19 @@ func c05prog(ps string, res *result) func() {
 					ev, ok := <-ch
 					if !ok {
 						o.closed = true
-						finished = true
-						return
+						break
 					}
 					record(ev)
 				}
+				if p.kind == "chanev-stalled" {
+					// quit only ends the forwarding: the screen is alive, and what the application
+					// has not seen yet is still to be had from PollEvent - all of it, in order
+					for s.HasPendingEvent() {
+						record(s.PollEvent())
+					}
+					o.continued = true
+				}
+				finished = true
 			})
 		case "chanev", "chanev-fini":
 			ch := make(chan tcell.Event, 64)
@@ -454,7 +463,7 @@ func c05check(ps string, o verifrt.Outcome, res *result) string {
 	if o.Deadlock {
 		return fmt.Sprintf("stuck: delivery stalled, blocked for ever: %v%s", o.AllBlocked, tag)
 	}
-	partial := strings.HasPrefix(p.kind, "chanev") // forwarding may stop early: an in-order prefix/subsequence is required
+	partial := strings.HasPrefix(p.kind, "chanev") && !ob.continued // forwarding may stop early: an in-order prefix/subsequence is required
 	// keys: exactly the injected sequence
 	want := p.k * p.perRead
 	if p.chunks != nil {
@@ -488,6 +497,19 @@ func c05check(ps string, o verifrt.Outcome, res *result) string {
 		// the escape timeout expired while a sequence was split across reads: the statement
 		// makes no claim about how the parts are then decoded
 		return ""
+	}
+	if ob.continued && len(keys) == want-1 {
+		// the one event ChannelEvents had taken off the queue when quit was closed?
+		j := 0
+		for i := 0; i < want && j < len(keys); i++ {
+			exp := rune('a' + i%26)
+			if keys[j] == exp {
+				j++
+			}
+		}
+		if j == len(keys) {
+			return fmt.Sprintf("quit-drops-in-flight: %d keys typed; ChannelEvents forwarded some until quit was closed and PollEvent delivered the rest, but one is missing (%q): the event ChannelEvents was holding when quit fired is neither forwarded nor put back%s", want, string(keys), tag)
+		}
 	}
 	for i, k := range keys {
 		exp := rune('a' + i%26)
